@@ -39,9 +39,13 @@ func (m *Model) PullOnOff(ctx context.Context, opts ...resource.ReadOption) <-ch
 		defer close(send)
 		for change := range recv {
 			value := change.Value.(*traits.OnOff)
-			send <- PullOnOffChange{
+			select {
+			case <-ctx.Done():
+				return // the subscriber has gone away: nobody may be receiving any more
+			case send <- PullOnOffChange{
 				Value:      value,
 				ChangeTime: change.ChangeTime,
+			}:
 			}
 		}
 	}()
